@@ -6,7 +6,7 @@
 (* result is computed by the specification module of that function.        *)
 (* Divergences are collected as data.  TRACE / OUT as in Trace_Session.    *)
 (***************************************************************************)
-EXTENDS SpendSetup, Flags, Amounts, Bech32, Assembler, Json, IOUtils, TLC
+EXTENDS SpendSetup, Flags, Amounts, Transforms, Assembler, Json, IOUtils, TLC
 
 Tr == ndJsonDeserialize(IOEnv.TRACE)
 OutFile == IOEnv.OUT
@@ -110,6 +110,20 @@ TapObserved(ev) == IF ev.code # 0 THEN [addr |-> FALSE, witness |-> FALSE, sigha
 BtccExpected(ev) == LET c == Compile(ev.tokens) IN [code |-> 0, out |-> BytesToHex(c[2])]
 BtccObserved(ev) == [code |-> ev.code, out |-> ev.out]
 
+(* ---- C14: value transforms, command form (tf name args) and inline form (name(arg)) ---- *)
+TfArgs(ev) == [i \in 1..Len(ev.args) |-> IF ev.args[i].k = "str" THEN <<"str", StrToCodes(ev.args[i].v)>> ELSE <<"data", H(ev.args[i].v)>>]
+TfValue(ev) == Transform(ev.name, TfArgs(ev))
+Render(v) == IF v[1] = "data" THEN BytesToHex(v[2])
+             ELSE IF v[1] = "str" THEN "\"" \o CodesToStr(v[2]) \o "\""
+             ELSE IF v[1] = "int" THEN (IF IsNeg(v[2]) THEN "-" ELSE "") \o ToString(ToInt(Mag(v[2])))
+             ELSE "?"
+TfExpected(ev) == LET v == TfValue(ev) IN
+    IF v = TfFail THEN [failed |-> TRUE, out |-> ""]
+    ELSE [failed |-> FALSE, out |-> IF ev.form = "inline" THEN BytesToHex(Emit(v))
+                                    ELSE IF ev.name = "hex" THEN CodesToStr(v[2])      \* the command form of hex prints the digits unquoted
+                                    ELSE Render(v)]
+TfObserved(ev) == IF TfValue(ev) = TfFail THEN [failed |-> ev.failed, out |-> ""] ELSE [failed |-> ev.failed, out |-> ev.out]
+
 Init == l = 1 /\ divs = <<>> /\ cov = {} /\ stats = [calls |-> 0]
 
 Judge(ev, exp, obs, class) ==
@@ -127,6 +141,7 @@ Next ==
        ELSE IF ev.e = "Tx" THEN
             (IF TxExpected(ev).ok = "unspec" THEN /\ stats' = [stats EXCEPT !.calls = @ + 1] /\ cov' = cov \cup {<<"Tx", "trailing-bytes">>} /\ UNCHANGED divs
              ELSE Judge(ev, TxExpected(ev), TxObserved(ev), <<"Tx", ev.ok, IF ev.ok THEN ev.haswit ELSE FALSE, IF ev.ok THEN Len(ev.vin) ELSE 0>>))
+       ELSE IF ev.e = "Tf" THEN Judge(ev, TfExpected(ev), TfObserved(ev), <<"Tf", ev.name, ev.form, ev.failed>>)
        ELSE IF ev.e = "Btcc" THEN Judge(ev, BtccExpected(ev), BtccObserved(ev), <<"Btcc", ev.kind>>)
        ELSE IF ev.e = "Tap" THEN Judge(ev, TapExpected(ev), TapObserved(ev), <<"Tap", ev.mode, Len(ev.scripts), ev.sighash # "">>)
        ELSE IF ev.e = "Amt" THEN Judge(ev, AmtExpected(ev), AmtObserved(ev), <<"Amt", ev.ok>>)
